@@ -2,17 +2,17 @@ SPECIFICATION Spec
 CONSTANTS
   Ecus <- EcusVal
   LcOfEcu <- LcOfEcuVal
-  LcStart <- LcStartVal
+  LcStart <- LcStartSub
   W = 2
-  D = 2
+  D = 4
   MaxMsgs = 3
-  RxDeltas <- RxBack
-  Delays <- DelaysFull
-  CtrlDelays = {5}
-  Sec = 1
-  TsGrid = 1
-  TickUs = 1000000
-  BaseTicks = 1640995200
+  RxDeltas = {0, 1, 2}
+  Delays <- DelaysSubVal
+  CtrlDelays = {3}
+  Sec = 20000
+  TsGrid = 2
+  TickUs = 50
+  BaseTicks = 20000000
   IndexMode = "pos"
   Record = FALSE
 INVARIANTS ThrAtLeastD Permutation OrderedUnderBound HeldUntilOld
